@@ -29,8 +29,10 @@ def build(rnd):
         if types[i] == "int": pres.append((f"lambda {', '.join(names)}: {names[i]} {rnd.choice(['>', '>=', '!=', '<'])} {rnd.randint(-5, 5)}", i))
         elif types[i] == "str": pres.append((f"lambda {', '.join(names)}: len({names[i]}) {rnd.choice(['>', '<'])} {rnd.randint(0, 3)}", i))
         else: pres.append((f"lambda {', '.join(names)}: {names[i]} is {rnd.choice(['True', 'False'])}", i))
-    raises = rnd.choice([None, None, "ValueError", "LookupError"])
-    body_raise = rnd.choice([None, "ValueError", "KeyError", "ZeroDivisionError"]) if rnd.random() < .5 else None
+    raises = rnd.choice([None, None, "ValueError", "LookupError", "SystemExit, ValueError", "KeyboardInterrupt"])      # also classes outside the Exception hierarchy
+    body_raise = rnd.choice([None, "ValueError", "KeyError", "ZeroDivisionError", "SystemExit", "KeyboardInterrupt"]) if rnd.random() < .5 else None
+    if raises and ("SystemExit" in raises or "KeyboardInterrupt" in raises) and types[0] == "int" and rnd.random() < .8:
+        body_raise = raises.split(",")[0]          # the declared BaseException-only class does escape
     post = rnd.random() < .3
     src = "import deal, functools\ndef logged(fn):\n    @functools.wraps(fn)\n    def w(*a, **k): return fn(*a, **k)\n    return w\n"
     pexc = rnd.choice([None, None, "ValueError", "KeyError"])      # a custom precondition error type that the body may raise too
@@ -108,7 +110,8 @@ def probe(seed, n):
             if exc is None:
                 if out != ("ret", direct): bad.append(["case() does not return the result", src, repr(full), repr(out)])
             else:
-                declared = () if raises is None else (getattr(__builtins__, raises) if hasattr(__builtins__, raises) else __builtins__[raises],)
+                import builtins as _b
+                declared = () if raises is None else tuple(getattr(_b, n.strip()) for n in raises.split(","))
                 if isinstance(exc, declared):
                     stats["noreturn"] += 1
                     if out != ("ret", typing.NoReturn): bad.append(["admitted exception should give NoReturn", src, repr(full), repr(out)])
